@@ -152,6 +152,23 @@ theorem val_iterCtor (hv : ValInvM seen s.mem) (dst : Nat) (w : IterCtor) (h : O
         rw [dropIds_dropsOf] at hi
         have := hfr i (hdropk k i hi)
         exact ⟨this.1, fun b kb hk _ => this.2.1 b kb hk, this.2.2⟩
+    | noAlloc n hal =>
+      -- the layout panic: all the items (the iterator) and then the header are destroyed — every
+      -- value handed in, each once
+      simp only
+      have hD : dropIds (dropsOf sc.items ++ hdrDrops (w.hdrOf h)) =
+          sc.items.map (·.id) ++ optId (w.hdrOf h) := by
+        rw [dropIds_append, dropIds_dropsOf, optId_hdrDrops]
+      have hsl : (sc.items.map (·.id) ++ optId (w.hdrOf h)).Sublist (sc.items.map (·.id) ++ optId h) :=
+        List.Sublist.append (List.Sublist.refl _) (optId_hdrOf_sublist w h)
+      have hperm : (sc.items.map (·.id) ++ optId h).Perm (optId h ++ sc.items.map (·.id)) :=
+        List.perm_append_comm
+      apply hw.emit_drops (dropsOf sc.items ++ hdrDrops (w.hdrOf h))
+      · rw [hD]; exact (hperm.symm.nodup hnd).sublist hsl
+      · intro i hi
+        rw [hD] at hi
+        have := hfr i (hperm.subset (hsl.subset hi))
+        exact ⟨this.1, fun b kb hk _ => this.2.1 b kb hk, this.2.2⟩
     | leaked lay rl es k cls hes =>
       simp only
       have h1 : ValInvM (seen ++ opIds (.iterCtor dst w h sc))
